@@ -57,6 +57,18 @@ def main(tier='quick'):
             for n in (0, 1, 3):
                 add(K.run_move_scp(rng, pol, mid, ctx, n, [rng.choice([0, 0xB000, 0xA700]) for _ in range(n)]), {'svc': 'qr_move_scp', 'mid': mid, 'ctx': ctx, 'n': n, 'policy': pol})
             add(K.run_move_scp(rng, pol, mid, ctx, 0, [], known=False), {'svc': 'qr_move_scp', 'mid': mid, 'ctx': ctx, 'n': 0, 'policy': pol, 'destination': 'unknown'})
+            # every request is answered: the handler signals an error / the destination refuses the association or a class
+            for fault in ('handler', 'rejected', ('refused', 0), ('refused', 1)):
+                add(K.run_move_scp(rng, pol, mid, ctx, 3, [0, 0, 0], fault=fault), {'svc': 'qr_move_scp', 'mid': mid, 'ctx': ctx, 'n': 3, 'policy': pol, 'fault': fault})
+            # the C-FIND handler fails before / while it yields; or supplies the final status itself (one final response)
+            for fa in (0, 1, 2):
+                ms = [(rng.choice([0xFF00, 0xFF01]), 20)] * 3
+                add(K.run_find_scp(rng, pol, mid, ctx, ms, fail_after=fa), {'svc': 'qr_find_scp', 'mid': mid, 'ctx': ctx, 'matches': ms, 'policy': pol, 'handler_fails_after': fa})
+            for fin in (0x0000, 0xC000, 0xFE00, 0xA700):
+                ms = [(0xFF00, 20)] * rng.choice([0, 2]) + [(fin, rng.choice([0, 20]))]
+                add(K.run_find_scp(rng, pol, mid, ctx, ms), {'svc': 'qr_find_scp', 'mid': mid, 'ctx': ctx, 'matches': ms, 'policy': pol, 'final_status_from_handler': fin})
+            # N-ACTION about another instance than the well-known one: the response repeats the REQUEST's instance
+            add(K.run_naction(rng, pol, mid, ctx, 0, 2, 'success', inst='1.2.3.4.%d' % rng.randint(1, 999)), {'svc': 'n_action', 'mid': mid, 'ctx': ctx, 'outcome': 0, 'policy': pol, 'instance': 'not the well-known one'})
         for mid in mids[:6]:
             plan = [('store', rng.choice([7, 9]), rng.choice(K.MIDS), 1) for _ in range(3)]
             add(K.run_get_scu(rng, mid, 1, plan, [0, 'EHE', 0xB000], pol), {'svc': 'qr_get_scu', 'mid': mid, 'plan': plan, 'policy': pol})
